@@ -15,7 +15,8 @@ import (
 // C02 — one addressing scheme: flatten, lookup, search and JSON pointers agree.
 
 type c02Addr struct {
-	D W `json:"d"`
+	D   W      `json:"d"`
+	Via string `json:"via"` // build: constructed node by node; frommap: decoded with FromMap (nulls are the shared nil leaf)
 }
 
 type c02Rebuild struct {
@@ -101,7 +102,7 @@ func c02Run(c *Ctx) {
 	g := c02Gen()
 	for i := 0; i < c.N(1500); i++ {
 		c.Tick()
-		c.Do("addr", c02Addr{g.Doc(r)})
+		c.Do("addr", c02Addr{g.Doc(r), pick(r, []string{"build", "frommap"})})
 	}
 	gr := c02Gen()
 	gr.MaxDepth = 4
@@ -153,6 +154,10 @@ func c02Eval(c *Ctx, kind string, raw []byte) {
 		}
 		out, txt := guard(func() {
 			cb := wireContainer(p.D)
+			if p.Via == "frommap" {
+				cb = dom.Builder().FromMap(wirePlain(p.D).(map[string]any))
+			}
+			c.Dist("via:" + p.Via)
 			fl := cb.Flatten()
 			ref := map[string]struct {
 				V     W
